@@ -1,6 +1,7 @@
 """Result accumulation, evidence writing, known-findings matching, exit protocol."""
 import json, os, sys, time, hashlib
-from .boot import VERIF
+from .boot import VERIF as _VERIF
+VERIF = os.environ.get("VERIF_OUT", _VERIF)   # scratch output dir for mutant experiments
 
 LEVEL = "model_checking"
 
@@ -34,7 +35,7 @@ class Violation:
 
 
 def load_known():
-    p = os.path.join(VERIF, "known_findings.json")
+    p = os.path.join(_VERIF, "known_findings.json")
     if not os.path.exists(p):
         return []
     with open(p) as f:
